@@ -266,3 +266,10 @@ def check_C09(tier: str, seed: int) -> int:
     v.coverage = cov
     v.assumptions = ["reports filed by a transition that is later rejected are not rolled back by the implementation's reporter (only the simulation state is compared)"]
     return v.finish()
+
+
+@register("C03")
+def check_C03(tier: str, seed: int) -> int:
+    return control_check("C03", tier, seed, assumptions=[
+        "request ids are unique in the input and never reused",
+        "the whole-stream conservation law is enforced by the Lean ledger automaton (Hive.Ledger) on implementation traces; the Lean theorems are the state-level lemmas listed in Properties/C03.lean (partial: no theorem over unbounded event streams yet)"])
